@@ -213,7 +213,7 @@ func c15R2(c *Ctx, rule string) {
 			}),
 			engine.PredCond("encodeErr", func(cd engine.Cond) (bool, int) {
 				if cd.IsRel && strings.HasSuffix(cd.X, ".Encode(recv.meta)") && cd.Y == "nil" {
-					if cd.EdgeOrd(true) == engine.LT|engine.GT {
+					if isNEc(cd) {
 						return true, engine.True
 					}
 					return true, engine.False
@@ -223,7 +223,7 @@ func c15R2(c *Ctx, rule string) {
 			engine.Event("flush", c.P.IsCallTo(engine.Is("(*bufio.Writer).Flush"))),
 			engine.PredCond("flushErr", func(cd engine.Cond) (bool, int) {
 				if cd.IsRel && strings.HasSuffix(cd.X, ".Flush()") && cd.Y == "nil" {
-					if cd.EdgeOrd(true) == engine.LT|engine.GT {
+					if isNEc(cd) {
 						return true, engine.True
 					}
 					return true, engine.False
@@ -431,6 +431,7 @@ func c15R3(c *Ctx, rule string) {
 		engine.EachInstr(lf, func(in ssa.Instruction) {
 			if ifi, ok := in.(*ssa.If); ok {
 				cd := c.P.CondOf(ifi.Cond)
+				cd, _ = cd.WithY(func(d string) bool { return d == "recv.retain" })
 				if cd.IsRel && strings.HasPrefix(cd.X, "len(") && cd.Y == "recv.retain" && cd.EdgeOrd(true) == engine.EQ {
 					// true edge must leave the loop
 					okStop = !engine.Reaches(ifi.Block().Succs[0], ifi.Block())
@@ -468,6 +469,7 @@ func c15R4(c *Ctx, rule string) {
 	engine.EachInstr(fn, func(in ssa.Instruction) {
 		if ifi, ok := in.(*ssa.If); ok {
 			cd := c.P.CondOf(ifi.Cond)
+			cd, _ = cd.WithY(func(d string) bool { return d == "len(recv.getSnapshots()#0)" })
 			if cd.IsRel && cd.Y == "len(recv.getSnapshots()#0)" && cd.EdgeOrd(true) == engine.LT {
 				if ph, ok := cd.XV.(*ssa.Phi); ok {
 					idx = ph
@@ -529,7 +531,7 @@ func c15R5(c *Ctx, rule string) {
 		}),
 		engine.PredCond("copyErr", func(cd engine.Cond) (bool, int) {
 			if cd.IsRel && strings.HasPrefix(cd.X, "io.Copy(") && strings.HasSuffix(cd.X, "#1") && cd.Y == "nil" {
-				if cd.EdgeOrd(true) == engine.LT|engine.GT {
+				if isNEc(cd) {
 					return true, engine.True
 				}
 				return true, engine.False
@@ -543,7 +545,7 @@ func c15R5(c *Ctx, rule string) {
 		}),
 		engine.PredCond("seekErr", func(cd engine.Cond) (bool, int) {
 			if cd.IsRel && strings.Contains(cd.X, ".Seek(0, 0)#1") && cd.Y == "nil" {
-				if cd.EdgeOrd(true) == engine.LT|engine.GT {
+				if isNEc(cd) {
 					return true, engine.True
 				}
 				return true, engine.False
